@@ -249,7 +249,7 @@ func runOmni(c *OmniCase) (bool, []string, error) {
 	}
 	get := func(r *running, li int) (int, []byte, error) {
 		id := logfmt.ID(stubs.logs[li].origin)
-		resp, err := http.Get("http://" + r.addr + "/witness/v0/logs/" + id + "/checkpoint")
+		resp, err := verifHTTP.Get("http://" + r.addr + "/witness/v0/logs/" + id + "/checkpoint")
 		if err != nil {
 			return 0, nil, err
 		}
